@@ -1,36 +1,93 @@
 /-
   C17 - Stack use does not grow with the number of iterations between yields.
 
-  Model: in seq.go every call (Seq closure, continuation, `loop`) is a tail call that Go does not
-  eliminate, and nothing returns before `Bind` stores the step or the final continuation runs.  So
-  *the Go stack depth during an advance is the number of machine transitions made so far*
-  (`stepsToFinal`); correspondence K2 checks exactly this against runtime.Callers at every thunk,
-  condition and post callback of every small term with a loop (and random larger ones).
+  Model (Runtime/Depth.lean): every machine transition is one Go call that is not eliminated as a tail call,
+  so it runs one frame deeper than its caller - except the trampoline of `For`: when a loop body completes
+  while the frame of that loop activation is still on the stack, control RETURNS to that frame.  The depth
+  state is ghost state (`C17_erasure`).  Correspondence K2 checks the model's depth at every thunk, condition
+  and post callback against runtime.Callers - exact equality on every small term with a loop and on random
+  larger ones, advances driven by MoveNext and by Send, no drift of the starting depth across 40 advances -
+  and measures the growth per non-yielding iteration on six loop shapes (must be 0.00).
 
-  On the tree under verification the property is FALSE (finding D5): `C17_cex_depth_grows` proves that a
-  loop running n non-yielding iterations pushes at least 4·n frames, for every n.  The repair (a
-  trampolined `For`) changes the frame discipline of the runtime and is recorded as an open finding;
-  the check replays the witness on the real runtime (measured: 4 frames per iteration).
-  What the check still decides: any change that makes the real runtime use MORE stack than the model
-  (e.g. growth across yields, per delegated element, per re-execution of a loop value) breaks K2.
+  * `C17_trampoline` (= `stepDS_trampoline`): PROVED for every loop, body, continuation, store: a body that
+    completes (Normal / Continue) while its loop frame is registered continues at the depth of that frame,
+    whatever depth the body itself reached.
+  * `C17_depth_constant`: PROVED for every iteration count n and every m ≤ n: the m-th evaluation of the head
+    of a loop that never yields runs at the depth of the first one.
+  * `C17_pinned_depth_grows`: on the PINNED tree the property was false (finding D5, repaired by 5f77a8a):
+    there every transition nests, and a loop of n non-yielding iterations makes 4·n + 2 transitions in one
+    advance, for every n (measured on the real runtime then: 3 to 8 frames per iteration, now 0).
+  Partial: the general statement "for every body that completes without yielding the loop frame stays
+  registered until the body's continuation is applied" (stack discipline of the machine) is not proved;
+  byte sizes of frames and the 1 GB limit are not modelled.
 -/
-import GoCo.Runtime.Machine
+import GoCo.Runtime.Depth
 set_option autoImplicit false
 
 namespace GoCo.C17
 open GoCo
 
-/-- `for c() { }` over a counter store: the condition holds while fewer than `n` evaluations were made;
-    the body is `Delay(func() Seq { return Normal() })`, i.e. it never yields -/
-def spin (n : Nat) : Term Nat Nat Unit :=
-  .loop (some fun st => (if st < n then .t else .f, st + 1)) none
-    (.delay (fun _ => .sig .normal 0) (fun st => st))
+def spinC (n : Nat) : Option (Nat → CondR Unit × Nat) := some fun st => (if st < n then .t else .f, st + 1)
+def spinB : Term Nat Nat Unit := .delay (fun _ => .sig .normal 0) (fun st => st)
+def spin (n : Nat) : Term Nat Nat Unit := .loop (spinC n) none spinB
+
+/-- one iteration of the spinning loop: four transitions, three frames deeper, and back at the depth of the
+    loop frame -/
+theorem spin_iteration (n N b i : Nat) (skip : Bool) (ds : DS) (hi : i < n) (hD : ds.get 0 = some ds.d) :
+    runD N 4 (.loop (b + 1) (spinC n) none spinB .done skip i, ds)
+      = (.loop b (spinC n) none spinB .done false (i + 1), ds.backTo 0 ds.d) := by
+  have hget : ({ ds with d := ds.d + 1 + 1 + 1 } : DS).get 0 = some ds.d := hD
+  cases skip <;>
+    simp [runD, stepD, step, stepDS, loopHead, spinC, spinB, hi, Cont.loops, hget, DS.backTo]
+
+theorem backTo_d (ds : DS) (l D : Nat) : (ds.backTo l D).d = D := rfl
+
+/-- the depth at the head of the loop is the same at every iteration -/
+theorem spin_head_depth (n N : Nat) :
+    ∀ (m i b : Nat) (skip : Bool) (ds : DS), i + m ≤ n → m ≤ b → ds.get 0 = some ds.d →
+      ∃ sk ds', runD N (4 * m) (.loop b (spinC n) none spinB .done skip i, ds)
+          = (.loop (b - m) (spinC n) none spinB .done sk (i + m), ds') ∧ ds'.d = ds.d ∧ ds'.get 0 = some ds.d := by
+  intro m
+  induction m with
+  | zero => intro i b skip ds _ _ hD; exact ⟨skip, ds, rfl, rfl, hD⟩
+  | succ m ih =>
+    intro i b skip ds hi hb hD
+    obtain ⟨b', rfl⟩ : ∃ b', b = b' + 1 := ⟨b - 1, by omega⟩
+    have e : 4 * (m + 1) = 4 + 4 * m := by omega
+    rw [e, runD_add, spin_iteration n N b' i skip ds (by omega) hD]
+    have hD' : (ds.backTo 0 ds.d).get 0 = some (ds.backTo 0 ds.d).d := get_backTo hD
+    obtain ⟨sk, ds', h1, h2, h3⟩ := ih (i + 1) b' false (ds.backTo 0 ds.d) (by omega) (by omega) hD'
+    refine ⟨sk, ds', ?_, ?_, ?_⟩
+    · rw [h1]; congr 2 <;> omega
+    · rw [h2]; rfl
+    · rw [h3]; rfl
+
+/-- **C17 on the repaired runtime**: the m-th evaluation of the loop head of a loop that never yields runs at
+    the depth of the first one - for every number of iterations `n` and every `m ≤ n` -/
+theorem C17_depth_constant (n m : Nat) (h : m ≤ n) :
+    (runD (n + 1) (1 + 4 * m) (.eval (spin n) .done 0, ({ d := 1 } : DS))).2.d = 2 := by
+  rw [runD_add]
+  have h1 : runD (n + 1) 1 (.eval (spin n) .done 0, ({ d := 1 } : DS))
+      = (.loop (n + 1) (spinC n) none spinB .done true 0, ({ d := 1 } : DS).enter 0 2) := rfl
+  rw [h1]
+  obtain ⟨sk, ds', h2, h3, _⟩ := spin_head_depth n (n + 1) m 0 (n + 1) true (({ d := 1 } : DS).enter 0 2)
+    (by omega) (by omega) (get_enter _ 0 2)
+  rw [h2, h3]; rfl
+
+theorem C17_erasure {σ V P : Type} [Inhabited V] (N n : Nat) (x : Cfg σ V P × DS) : (runD N n x).1 = run N n x.1 :=
+  runD_erasure N n x
+
+theorem C17_trampoline {σ V P : Type} (n : Nat) (c : Option (σ → CondR P × σ)) (p : Option (σ → Option P × σ))
+    (body : Term σ V P) (k : Cont σ V P) (s : Sig) (hs : s = .normal ∨ s = .cont) (v : V) (st : σ) (ds : DS) (D : Nat)
+    (h : ds.get k.loops = some D) :
+    (stepDS (.apply (.loopK n c p body k) s v st) ds).d = D := stepDS_trampoline n c p body k s hs v st ds D h
+
+/-! ### the pinned runtime: every transition nested (frames = transitions), so depth grew with n -/
 
 theorem loop_steps (n N : Nat) (k : Cont Nat Nat Unit) :
     ∀ (m i budget fuel : Nat), i + m = n → m < budget → 4 * m + 2 ≤ fuel → budget ≤ N + 1 → ∀ skip,
       ∃ r, run N (4 * m + 1)
-          (.loop budget (some fun st => (if st < n then .t else .f, st + 1)) none
-            (.delay (fun _ => .sig .normal 0) (fun st => st)) k skip i) = .apply k .normal default r := by
+          (.loop budget (spinC n) none spinB k skip i) = .apply k .normal default r := by
   intro m
   induction m with
   | zero =>
@@ -38,7 +95,7 @@ theorem loop_steps (n N : Nat) (k : Cont Nat Nat Unit) :
     obtain ⟨b, rfl⟩ : ∃ b, budget = b + 1 := ⟨budget - 1, by omega⟩
     have : ¬ i < n := by omega
     refine ⟨i + 1, ?_⟩
-    cases skip <;> simp [run, step, loopHead, this]
+    cases skip <;> simp [run, step, loopHead, spinC, spinB, this]
   | succ m ih =>
     intro i budget fuel hi hb hf hN skip
     obtain ⟨b, rfl⟩ : ∃ b, budget = b + 1 := ⟨budget - 1, by omega⟩
@@ -47,16 +104,14 @@ theorem loop_steps (n N : Nat) (k : Cont Nat Nat Unit) :
     refine ⟨r, ?_⟩
     have e : 4 * (m + 1) + 1 = 4 + (4 * m + 1) := by omega
     rw [e, run_add]
-    have : run N 4 (.loop (b + 1) (some fun st => (if st < n then CondR.t else CondR.f, st + 1)) none
-        (.delay (fun _ => .sig .normal 0) (fun st => st)) k skip i)
-        = .loop b (some fun st => (if st < n then CondR.t else CondR.f, st + 1)) none
-          (.delay (fun _ => .sig .normal 0) (fun st => st)) k false (i + 1) := by
-      cases skip <;> simp [run, step, loopHead, hlt]
+    have : run N 4 (.loop (b + 1) (spinC n) none spinB k skip i)
+        = .loop b (spinC n) none spinB k false (i + 1) := by
+      cases skip <;> simp [run, step, loopHead, spinC, spinB, hlt]
     rw [this, hr]
 
 /-- **finding D5**: a loop that runs `n` iterations without yielding pushes at least `4·n` Go frames in
     a single advance - the depth is not bounded independently of `n` -/
-theorem C17_cex_depth_grows (n : Nat) :
+theorem C17_pinned_depth_grows (n : Nat) :
     ∃ r, run (n + 1) (4 * n + 2) (.eval (spin n) .done 0) = .apply .done .normal default r := by
   obtain ⟨r, hr⟩ := loop_steps n (n + 1) .done n 0 (n + 1) (4 * n + 2) (by omega) (by omega) (by omega)
     (by omega) true
@@ -71,5 +126,10 @@ theorem C17_frames_are_transitions {σ V P : Type} [Inhabited V] (N : Nat) (c : 
   simp [stepsToFinal, h]
 
 example : (run 4 (4 * 3 + 2) (.eval (spin 3) .done 0)) = .apply .done .normal 0 4 := rfl
+
+
+/-! non-vacuity: the instrumented run of three iterations; depth 2 at the head each time, 5 inside the body -/
+example : (runD 4 (1 + 4 * 3) (.eval (spin 3) .done 0, ({ d := 1 } : DS))).2.d = 2 := by decide
+example : (runD 4 (1 + 4 * 2 + 3) (.eval (spin 3) .done 0, ({ d := 1 } : DS))).2.d = 5 := by decide
 
 end GoCo.C17
